@@ -96,6 +96,7 @@ def handle (st : St) (j : Json) : Except String (St × String) := do
       handleGraphIo o j,
       handleStruct4 st.net o j,
       handleStruct5 o j,
+      handleStruct5Topo st.net st.root o j,
       handleEmBackward st.net st.root o j ]
     match exts.findSome? id with
     | some r => do let a ← r; pure (st, a)
